@@ -2281,6 +2281,10 @@ class Flattener:
             if not _thread_flags(fi.node):
                 break
             any_change = True
+        from .bitnorm import canon_bit_allocation
+        if canon_bit_allocation(fi.node):
+            any_change = True
+            self.log.append("%s: hand-written witness-bit allocation rewritten to PrivValBool form by lemma (D) (sa/bitnorm.py)" % fi.fq)
         from .selnorm import canon_selector_designs
         lem = canon_selector_designs(fi.node)
         if lem:
